@@ -131,6 +131,11 @@ fn merge_leading_lists(items: Vec<Vec<Block>>) -> Vec<Vec<Block>> {
     for it in items {
         let mut it = it;
         loop {
+            // raw HTML blocks are dropped (documented): an item whose list comes right after them starts with that list
+            let html = it.iter().take_while(|b| b.k == "Html").count();
+            if html > 0 && it.get(html).map(|f| f.k == "BL" || f.k == "OL").unwrap_or(false) {
+                it = it[html..].to_vec();
+            }
             let leading = it.first().map(|f| f.k == "BL" || f.k == "OL").unwrap_or(false);
             if !leading {
                 out.push(it);
